@@ -4,41 +4,62 @@ import Cx.Proofs.FastCex
   C19 — specialised fast paths are exact on every pattern they accept.
 
   For each fast path: the searcher model (transliteration of the Go type and of the applicability predicate) equals a
-  leftmost-first specification on a FRAGMENT stated as explicit decidable hypotheses; "applicability ⇒ fragment" is
-  proved where it holds.  Where the predicate accepts more than the fragment (lazy quantifiers, case folding, Latin-1
-  runes used as bytes, a trailing concatenation after the dispatched alternation, `.` vs newline …) the hypothesis the
-  proof forced is the defect, and a `decide`-checked counterexample theorem is kept in `Cx.Proofs.FastCex`
-  (each replayed on the real code by the C19 check → known findings).  Hence the `_partial` names.
+  leftmost-first specification on a FRAGMENT; "applicability ⇒ fragment" is proved where it holds.
+
+  * CharClassSearcher, CompositeSearcher (and, up to the reading of the anchors, the anchored literal): after the fixes of nfa/charclass_extract.go, nfa/composite.go
+    and meta/anchored_literal.go the applicability predicates imply the whole fragment, so the theorems hold for EVERY
+    accepted pattern (no `_partial`): the former hypotheses `greedy`, `noZeroMax`, `ascii`, `dotMatchesAll` are now
+    derived from acceptance (`isSimpleCharClassPlus_greedy`, `isCompositeCharClassPattern_greedy/_noZeroMax/_ascii`) or
+    checked by the matcher (`wildcardOK`).  The composite theorem keeps two hypotheses that are invariants of
+    `syntax.Parse` output, not restrictions of the fragment: `RepeatOK` (`n ≤ m` in `{n,m}`) and `ClassSorted` (`Rune`
+    ascending — the Go predicate tests only the LAST rune of a class against U+007F).
+  * BranchDispatcher, ExtractFirstBytes: the predicate still accepts more than the fragment (case folding, Latin-1 runes
+    used as bytes, a trailing concatenation after the dispatched alternation, …); the hypothesis the proof forced is the
+    defect, and a `decide`-checked counterexample theorem is kept in `Cx.Proofs.FastCex` (each replayed on the real code
+    by the C19 check → known findings).  Hence the `_partial` names there.
+  The witnesses of the fixed defects are kept in `Cx.Proofs.FastCex` as `…_fixed` theorems (pattern now rejected, or
+  matcher now agrees with the reference).
   `Ref.refFind` is the general leftmost-first reference matcher over the AST (`Cx.Spec.ReRef`), validated against regexp.
 -/
 namespace Cx.C19
 open Cx Cx.Fast Cx.Fast.Spec
 
-/-- CharClassSearcher (`cls+`): exact w.r.t. the reference matcher whenever the quantifier is greedy -/
-theorem C19_charClassSearcher_partial (re : Re) (hok : isSimpleCharClassPlus re = true) (greedy : re.nonGreedy = false)
-    (h : Bytes) (a : Nat) :
+/-- CharClassSearcher (`cls+`): exact w.r.t. the reference matcher on EVERY pattern `IsSimpleCharClassPlus` accepts -/
+theorem C19_charClassSearcher (re : Re) (hok : isSimpleCharClassPlus re = true) (h : Bytes) (a : Nat) :
     (buildCharClassSearcher re).map (fun s => s.searchAt h a) = some (Ref.refFind re h a) :=
-  charClassSearcher_eq_reference re hok greedy h a
+  charClassSearcher_eq_reference re hok h a
 
 /-- its streaming enumeration is stdlib's FindAll loop over its own single search; Count is its length -/
 theorem C19_charClass_streaming (s : CharClassSearcher) (hm : 1 ≤ s.minMatch) (h : Bytes) (w : Nat → Nat) :
     s.findAllIndices h = Std.stdFindAll (s.searchAt h) id w h.size (-1) ∧ s.count h = (s.findAllIndices h).length :=
   ⟨CharClassSearcher.findAllIndices_eq_loop s hm h w, CharClassSearcher.count_eq_length s h⟩
 
-/-- CompositeSearcher (`c1{m,n} c2{m,n} …`): exact for greedy parts, no `{0}` part, ASCII classes -/
-theorem C19_compositeSearcher_partial (re : Re) (c : CompositeSearcher) (hc : newCompositeSearcher re = some c)
-    (greedy : AllGreedy re) (noZeroMax : NoZeroMax re) (ascii : AsciiOnly re) (repOK : RepeatOK re)
+/-- CompositeSearcher (`c1{m,n} c2{m,n} …`): exact w.r.t. the reference matcher on EVERY pattern
+    `IsCompositeCharClassPattern` accepts (greedy parts, no `{…,0}`, ASCII classes are implied by acceptance).
+    `repOK` and `sorted` are parser invariants (`{n,m}` has `n ≤ m`; class `Rune` lists are ascending). -/
+theorem C19_compositeSearcher (re : Re) (c : CompositeSearcher) (hok : isCompositeCharClassPattern re = true)
+    (hc : newCompositeSearcher re = some c) (repOK : RepeatOK re) (sorted : ClassSorted re)
     (h : Bytes) (a : Nat) : c.searchAt h a = Ref.refFind re h a :=
-  compositeSearcher_eq_reference re c hc greedy noZeroMax ascii repOK h a
+  compositeSearcher_eq_reference re c hok hc repOK sorted h a
 
-/-- anchored-literal matcher (`^prefix.*[cls]*suffix$`): equals its byte-level specification when `.` may match every byte of
-    the haystack (dot-all flag, or no newline in the input) -/
+/-- what acceptance by `IsCompositeCharClassPattern` implies (the three former hypotheses) -/
+theorem C19_compositeSearcher_fragment (re : Re) (hok : isCompositeCharClassPattern re = true) :
+    CompositeFrag re ∧ AllGreedy re ∧ NoZeroMax re ∧ (ClassSorted re → AsciiOnly re) :=
+  ⟨isCompositeCharClassPattern_fragment re hok, isCompositeCharClassPattern_greedy re hok,
+   isCompositeCharClassPattern_noZeroMax re hok, isCompositeCharClassPattern_ascii re hok⟩
+
+/-- anchored-literal matcher (`^prefix.*[cls]+suffix$`): on EVERY detected pattern and EVERY haystack it equals its
+    byte-level specification, `.` excluding `\\n` unless the wildcard is `(?s:.)`; the fragment (`AnchoredFrag`) says
+    that all literals are case-sensitive (bytes = UTF-8 of the runes) and that the class bridge passes the ASCII test.
+    Still `_partial`: no hypothesis is left, but the specification reads both anchors as TEXT anchors (`\\A`, `\\z`) while
+    `DetectAnchoredLiteral` also accepts the line anchors `(?m)^` / `(?m)$` (`anchoredLiteral_multiline_counterexample`;
+    meta only selects the strategy for patterns anchored at both ends of the text). -/
 theorem C19_anchoredLiteral_partial (re : Re) (info : AnchoredLiteralInfo) (hd : detectAnchoredLiteral re = some info)
-    (h : Bytes) (dotMatchesAll : wildcardDotNL re = true ∨ ∀ i, i < h.size → h.at i ≠ 10) :
+    (h : Bytes) :
     AnchoredFrag re info ∧
     (matchAnchoredLiteral h info = true ↔ AnchoredSpec (wildcardDotNL re) info h) ∧
     ∀ a, anchoredFindAt h info a = anchoredFindSpec (wildcardDotNL re) info h a :=
-  anchoredLiteral_exact re info hd h dotMatchesAll
+  anchoredLiteral_exact re info hd h
 
 /-- BranchDispatcher (`\A(b1|…|bk)`): first matching branch in order, on the fragment `bdFrag`
     (nothing after the alternation, branches = case-sensitive ASCII literal or greedy ASCII `cls+`) -/
